@@ -123,3 +123,12 @@ Proof.
   unfold memory_gas_cost. destruct (_ =? 0); [reflexivity|]. destruct (_ <? _); [reflexivity|].
   destruct (_ <? _); reflexivity.
 Qed.
+
+(** [mcopy_gas] is the gas component of [mcopy_step], and fails exactly when it does *)
+Theorem mcopy_gas_is_step_gas m dst src len :
+  mcopy_gas (blen m) dst src len = match mcopy_step m dst src len with Ok (g, _) => Ok g | Err e => Err e | Panic p => Panic p end.
+Proof.
+  unfold mcopy_gas, mcopy_step. destruct (mcopy_mem_size dst src len) as [size ovf]. destruct ovf; [reflexivity|].
+  destruct (two64 <=? to_words size * 32); [reflexivity|].
+  destruct (memory_gas_cost (blen m) (to_words size * 32)); reflexivity.
+Qed.
